@@ -500,6 +500,48 @@ fn hunt_setops() -> Result<(), String> {
             }
         }
     }
+    // sub-views: key-level statements that do not depend on how annotations are seeded - the keys of union / intersection /
+    // difference of a.view_at(r1) and b.view_at(r2) (two maps), and the intersection of two views of the SAME map
+    for am in (0..128u32).step_by(3) {
+        let (a, oa) = build_sub(am, false, 0, 10);
+        for bm in (0..128u32).step_by(5) {
+            let (b, ob) = build_sub(bm, false, 0x15, 50);
+            for r1 in KEYS.iter() {
+                for r2 in KEYS.iter() {
+                    let (Some(va), Some(vb)) = (a.view_at(*r1), b.view_at(*r2)) else { continue };
+                    n += 1;
+                    let (k1, k2) = (okey(*r1), okey(*r2));
+                    let ua: std::collections::BTreeSet<Vec<u8>> = oa.keys().filter(|k| covers(&k1, k)).cloned().collect();
+                    let ub: std::collections::BTreeSet<Vec<u8>> = ob.keys().filter(|k| covers(&k2, k)).cloned().collect();
+                    let kk = |p: &(u8, u8)| okey((p.0 & !(0xffu16 >> p.1) as u8, p.1));
+                    let ctx = |what: &str, got: String, want: String| format!("a = {:?} viewed at {r1:?}, b = {:?} viewed at {r2:?}: {what} yields keys {got}, expected {want}", oa.values().collect::<Vec<_>>(), ob.values().collect::<Vec<_>>());
+                    let r = std::panic::catch_unwind(std::panic::AssertUnwindSafe(|| -> Result<(), String> {
+                        let g: Vec<Vec<u8>> = va.union(vb.clone()).map(|it| kk(it.prefix())).collect();
+                        let w: Vec<Vec<u8>> = ua.union(&ub).cloned().collect();
+                        if g != w { return Err(ctx("union", format!("{g:?}"), format!("{w:?}"))); }
+                        let g: Vec<Vec<u8>> = va.intersection(vb.clone()).map(|(p, _, _)| kk(p)).collect();
+                        let w: Vec<Vec<u8>> = ua.intersection(&ub).cloned().collect();
+                        if g != w { return Err(ctx("intersection", format!("{g:?}"), format!("{w:?}"))); }
+                        let g: Vec<Vec<u8>> = va.difference(vb.clone()).map(|d| kk(d.prefix)).collect();
+                        let w: Vec<Vec<u8>> = ua.difference(&ub).cloned().collect();
+                        if g != w { return Err(ctx("difference", format!("{g:?}"), format!("{w:?}"))); }
+                        Ok(())
+                    }));
+                    match r { Ok(Ok(())) => {}, Ok(Err(e)) => return Err(e), Err(_) => return Err(ctx("a set operation on sub-views", "a panic".into(), "no panic".into())) }
+                }
+            }
+        }
+        for r1 in KEYS.iter() {
+            for r2 in KEYS.iter() {
+                let (Some(v1), Some(v2)) = (a.view_at(*r1), a.view_at(*r2)) else { continue };
+                n += 1;
+                let (k1, k2) = (okey(*r1), okey(*r2));
+                let w: Vec<(Vec<u8>, u16, u16)> = oa.iter().filter(|(k, _)| covers(&k1, k) && covers(&k2, k)).map(|(k, v)| (k.clone(), v.1, v.1)).collect();
+                let g: Vec<(Vec<u8>, u16, u16)> = v1.intersection(v2).map(|(p, l, r)| (okey((p.0 & !(0xffu16 >> p.1) as u8, p.1)), *l, *r)).collect();
+                if g != w { return Err(format!("map {:?}: view_at({r1:?}).intersection(view_at({r2:?})) of the same map yields {g:?}, expected {w:?}", oa.values().collect::<Vec<_>>())); }
+            }
+        }
+    }
     println!("STATS hunt_setops evaluations={n}");
     Ok(())
 }
